@@ -55,8 +55,10 @@ def handleP (valS progS scope hdrS : String) : String :=
     let out := if d.repanic then "repanic:same" else "returned"
     let status := if d.handled then 500 else if p.written then startedStatus progS else 0
     let red := sortStrings (d.redactedNames.map hexOfStr)
-    let route := if !d.logged then "-" else if scope == "noroute" then toHex (ascii "NoRouteHandler") else toHex (ascii "/r/{id}")
-    let params := if !d.logged || scope == "noroute" then "-" else toHex (ascii "id") ++ "=" ++ toHex (ascii "42")
+    let route := if !d.logged then "-" else if scope == "noroute" then toHex (ascii "NoRouteHandler") else if scope == "routets" then toHex (ascii "/r/{id}/") else if scope == "routehost" then toHex (ascii "{sub}.com/r/{id}") else toHex (ascii "/r/{id}")
+    let params := if !d.logged || scope == "noroute" then "-"
+      else if scope == "routehost" then toHex (ascii "sub") ++ "=" ++ toHex (ascii "example") ++ "+" ++ toHex (ascii "id") ++ "=" ++ toHex (ascii "42")
+      else toHex (ascii "id") ++ "=" ++ toHex (ascii "42")
     let m := "out=" ++ out ++ ",logged=" ++ (if d.logged then "1" else "0") ++ ",status=" ++ toString status ++
       ",touched=" ++ (if d.handled then "1" else "0") ++ ",redacted=" ++ (if red.isEmpty then "-" else join red "+") ++
       ",route=" ++ route ++ ",params=" ++ params ++ ",reqline=" ++ (if d.logged then "1" else "0") ++ "," ++ followOk true true
@@ -80,7 +82,7 @@ def handleT (kind nopsS pos : String) : String :=
   let e : TxnEnd := if pos.startsWith "p" then .panics else if pos.startsWith "e" then .returnsError else .completes (nops > 0)
   let o : Option TxnObs :=
     match kind with
-    | "updates" | "updates-t1" | "updates-t2" | "updates-t3" => some (managed true e)
+    | "updates" | "updates-t1" | "updates-t2" | "updates-t3" | "updates-s" => some (managed true e)
     | "view" => some (managed false e)
     | "handle" => some (singleOp 0)
     | "update" => some (singleOp 2)
